@@ -531,6 +531,22 @@ class MetaClass(object):
             if name.upper() == attribute_name:
                 return ty
     
+    def attribute_name(self, attribute_name):
+        '''
+        Obtain the name of an attribute as it was spelled when it was defined.
+        Names of attributes are case insensitive. Names that are not
+        attributes are returned unchanged.
+        '''
+        if attribute_name in self.attribute_names:
+            return attribute_name
+        
+        uname = attribute_name.upper()
+        for name, _ in self.attributes:
+            if name.upper() == uname:
+                return name
+        
+        return attribute_name
+    
     def add_link(self, metaclass, rel_id, phrase, conditional, many):
         '''
         Add a new link from *self* to *metaclass*.
@@ -628,6 +644,7 @@ class MetaClass(object):
             
         # set all named arguments
         for name, value in kwargs.items():
+            name = self.attribute_name(name)
             if name not in self.referential_attributes:
                 setattr(inst, name, value)
             else:
@@ -1256,6 +1273,12 @@ class MetaModel(object):
             
         source_metaclass = self.find_metaclass(source_kind)
         target_metaclass = self.find_metaclass(target_kind)
+        
+        # attribute names are case insensitive, use the declared spelling
+        source_keys = [source_metaclass.attribute_name(name) 
+                       for name in source_keys]
+        target_keys = [target_metaclass.attribute_name(name) 
+                       for name in target_keys]
 
         source_link = target_metaclass.add_link(source_metaclass, rel_id,
                                                 many=source_many,
@@ -1290,6 +1313,8 @@ class MetaModel(object):
             name = 'I%d' % name
         
         metaclass = self.find_metaclass(kind)
+        named_attributes = [metaclass.attribute_name(attr) 
+                            for attr in named_attributes]
         metaclass.indices[name] = tuple(named_attributes)
         metaclass.identifying_attributes |= set(named_attributes)
 
